@@ -194,5 +194,22 @@ func (m *TWCCModel) Value(chunks []rtcp.PacketStatusChunk) *rtcp.TransportLayerC
 // TWCCValue draws a model and one canonical chunking of it.
 func TWCCValue(r *core.Rand, o Opts) (*rtcp.TransportLayerCC, *TWCCModel) {
 	m := TWCCModelGen(r, o)
-	return m.Value(m.Chunks(r, ChunkOpts{})), m
+	t := m.Value(m.Chunks(r, ChunkOpts{}))
+	if r.Chance(1, 8) {
+		// equal neighbouring deltas and chunks share one object (a sender that builds feedback from
+		// a table of preallocated deltas does this)
+		for i := 1; i < len(t.RecvDeltas); i++ {
+			if *t.RecvDeltas[i] == *t.RecvDeltas[i-1] {
+				t.RecvDeltas[i] = t.RecvDeltas[i-1]
+			}
+		}
+		for i := 1; i < len(t.PacketChunks); i++ {
+			a, aok := t.PacketChunks[i-1].(*rtcp.RunLengthChunk)
+			b, bok := t.PacketChunks[i].(*rtcp.RunLengthChunk)
+			if aok && bok && *a == *b {
+				t.PacketChunks[i] = a
+			}
+		}
+	}
+	return t, m
 }
